@@ -186,6 +186,9 @@ pub fn run(ctx: &Ctx) -> i32 {
                 if r.has_binaries {
                     stats.class("has-binaries");
                 }
+                if case.prog.parts.iter().any(|p| matches!(p, gproc::Part::SharedAwait { .. })) {
+                    stats.class("several-awaiters-of-one-running-process");
+                }
                 stats.class(&format!("workers<={}", f.max_workers));
                 if f.processes >= 3 && f.max_workers >= 2 && r.has_messages {
                     stats.nontrivial(&r.source);
